@@ -273,3 +273,138 @@ def check_molekel_mo_blocks(ctx, rid):
         ctx.violate(rid, f"Molekel orbital blocks, {bad}", w, w.node, construct=f"molekel MO blocks: {bad}"[:180])
     else:
         ctx.ok(rid, "Molekel $COEFF / $OCC blocks: irreps, energies, occupations and coefficient columns of 7 alpha + 3 beta orbitals come back in their own slots", f"{w.module.relpath}:{w.lineno}")
+
+
+def check_molden_mo_blocks(ctx, rid):
+    """Molden `[MO]` section: energies, irreps, spins, occupations and coefficient columns written by dump_one come back
+    from the reader routine in their own slots (unrestricted 3 alpha + 2 beta orbitals; restricted 3 orbitals), with a
+    non-trivial permutation / sign pair standing for convert_conventions."""
+    prog = ctx.prog
+    do = prog.format_op("molden", "dump_one")
+    rd = prog.funcs.get("iodata.formats.molden._load_helper_coeffs")
+    if rd is None:
+        raise AnalysisError("molden._load_helper_coeffs not found")
+    mo_cls = prog.cls("iodata.orbitals.MolecularOrbitals")
+    iocls = prog.cls("iodata.iodata.IOData")
+    licls = prog.cls("iodata.utils.LineIterator")
+    cc = prog.func("iodata.convert.convert_conventions")
+    frag = None
+    for st in do.body:
+        if isinstance(st, ast.If) and any(isinstance(x, ast.Constant) and x.value == "unrestricted" for x in ast.walk(st.test)) and any(isinstance(x, ast.Constant) and isinstance(x.value, str) and "[MO]" in x.value for x in ast.walk(st)):
+            frag = st
+    pair = None
+    for st in do.body:
+        if isinstance(st, ast.Assign) and isinstance(st.value, ast.Call) and len(st.targets) == 1 and isinstance(st.targets[0], ast.Tuple) and len(st.targets[0].elts) == 2 and any(cs.node is st.value and cc in cs.callees for cs in do.calls):
+            pair = [e.id for e in st.targets[0].elts]
+    if frag is None or pair is None:
+        raise AnalysisError("molden.dump_one: the [MO] statement / the convert_conventions assignment was not found")
+    perm, signs = np.array([1, 0]), np.array([1.0, -1.0])
+    nbasis = 2
+    bad = None
+    for kind, na, nb in (("unrestricted", 3, 2), ("restricted", 3, 3)):
+        n = na + nb if kind == "unrestricted" else na
+        coeffs = np.array([[1.0 + 0.5 * j + 0.25 * i for j in range(n)] for i in range(nbasis)])
+        energies = np.array([-5.0 + 0.75 * j for j in range(n)])
+        occs = np.array([(1.0 if j % 2 == 0 else 0.5) * (2.0 if kind == "restricted" else 1.0) for j in range(n)])
+        irreps = [f"i{j}" for j in range(n)]
+        mo = Rec(mo_cls, kind=kind, norba=na, norbb=nb, occs=occs, coeffs=coeffs, energies=energies, irreps=irreps, occs_aminusb=None)
+        data = Rec(iocls, mo=mo)
+        sink = TextSink()
+        try:
+            ev = AccessorEval(prog, mo_cls, limit=8000)
+            ev.module = do.module
+            ev._block([frag], {do.posparams[0]: sink, do.posparams[1]: data, pair[0]: perm, pair[1]: signs})
+            lines = [ln + "\n" for ln in sink.text.split("\n") if ln.strip() != ""]
+            if not lines or lines[0].strip() != "[MO]":
+                bad = f"{kind}: the section does not start with [MO]"
+                break
+            lit = Rec(licls, filename="F", fh=iter(lines[1:]), lineno=0, stack=[])
+            (oa, ca, ea, ia), (ob, cb, eb, ib) = AccessorEval(prog, licls, limit=20000).run_free(rd, [lit], {})
+        except Raised as exc:
+            bad = f"{kind}: evaluation raises {exc.args[0]}"
+            break
+        except NotSymbolic as exc:
+            raise AnalysisError(f"Molden [MO] writer / reader are outside the evaluation whitelist: {exc}") from exc
+        conv = lambda c: c[perm] * signs.reshape(-1, 1)
+        groups = [("alpha", slice(0, na), oa, ca, ea, ia)]
+        if kind == "unrestricted":
+            groups.append(("beta", slice(na, n), ob, cb, eb, ib))
+        elif cb is not None:
+            bad = f"{kind}: the reader finds beta orbitals in a restricted section"
+            break
+        for spin, sl, o_, c_, e_, i_ in groups:
+            if list(i_) != irreps[sl]:
+                bad = f"{kind}, {spin}: irreps {irreps[sl]} come back as {list(i_)}"
+            elif _num(e_).shape != energies[sl].shape or np.abs(_num(e_) - energies[sl]).max() > 1e-12:
+                bad = f"{kind}, {spin}: orbital energies {energies[sl].tolist()} come back as {_num(e_).tolist()}"
+            elif _num(o_).shape != occs[sl].shape or np.abs(_num(o_) - occs[sl]).max() > 1e-12:
+                bad = f"{kind}, {spin}: occupations {occs[sl].tolist()} come back as {_num(o_).tolist()}"
+            elif _num(c_).shape != conv(coeffs[:, sl]).shape or np.abs(_num(c_) - conv(coeffs[:, sl])).max() > 1e-12:
+                bad = f"{kind}, {spin}: coefficient columns come back attached to other orbitals / basis functions"
+            if bad:
+                break
+        if bad:
+            break
+    if bad:
+        ctx.violate(rid, f"Molden [MO] section, {bad}", do, frag, construct=f"molden MO blocks: {bad}"[:180])
+    else:
+        ctx.ok(rid, "Molden [MO] section: energies, irreps, spins, occupations and coefficient columns of unrestricted (3 + 2) and restricted (3) orbitals come back in their own slots", f"{do.module.relpath}:{frag.lineno}")
+
+
+def check_wfn_mo_blocks(ctx, rid):
+    """WFN orbital sections (`MO n ... OCC NO = ... ORB. ENERGY = ...` + coefficient lines): number, occupation, energy
+    and primitive coefficients written by dump_one are read back by `_load_helper_mo` in their own slots (fixed-width
+    fields; seven primitives, so that the five-per-line chunks are crossed)."""
+    prog = ctx.prog
+    do = prog.format_op("wfn", "dump_one")
+    rd = prog.funcs.get("iodata.formats.wfn._load_helper_mo")
+    if rd is None:
+        raise AnalysisError("wfn._load_helper_mo not found")
+    mo_cls = prog.cls("iodata.orbitals.MolecularOrbitals")
+    iocls = prog.cls("iodata.iodata.IOData")
+    licls = prog.cls("iodata.utils.LineIterator")
+    loop = None
+    for st in do.body:
+        if isinstance(st, ast.For) and any(isinstance(x, ast.Name) and x.id == "FMT_MOS" for x in ast.walk(st)):
+            loop = st
+    if loop is None:
+        raise AnalysisError("wfn.dump_one: the loop that writes the MO sections (FMT_MOS) was not found")
+    k = do.body.index(loop)
+    pre = [st for st in do.body[max(0, k - 2):k] if isinstance(st, ast.Assign) and any(isinstance(t, ast.Name) and t.id in {x.id for x in ast.walk(loop) if isinstance(x, ast.Name)} for t in st.targets)]
+    free = {x.id for st in [*pre, loop] for x in ast.walk(st) if isinstance(x, ast.Name)}
+    cvar = next((nm for nm in ("mo_coeffs", "raw_coeffs", "coeffs") if nm in free and not any(isinstance(t, ast.Name) and t.id == nm for st in pre for t in st.targets)), None)
+    if cvar is None:
+        raise AnalysisError("wfn.dump_one: cannot tell which local holds the primitive coefficients in the MO loop")
+    nprim, norb = 7, 2
+    coeffs = np.array([[(-1) ** (i + j) * (0.125 + 0.5 * i + 0.03125 * j) for j in range(norb)] for i in range(nprim)])
+    occs, energies = np.array([2.0, 1.5]), np.array([-1.25, 0.5])
+    mo = Rec(mo_cls, kind="restricted", norba=norb, norbb=norb, occs=occs, coeffs=None, energies=energies, irreps=None, occs_aminusb=None)
+    data = Rec(iocls, mo=mo)
+    sink = TextSink()
+    bad = None
+    try:
+        ev = AccessorEval(prog, mo_cls, limit=8000)
+        ev.module = do.module
+        ev._block([*pre, loop], {do.posparams[0]: sink, do.posparams[1]: data, cvar: coeffs})
+        lines = [ln + "\n" for ln in sink.text.split("\n") if ln.strip() != ""]
+        lit = Rec(licls, filename="F", fh=iter(lines), lineno=0, stack=[])
+        for j in range(norb):
+            number, occ, energy, cf = AccessorEval(prog, licls, limit=8000).run_free(rd, [lit, nprim], {})
+            if int(number) != j + 1:
+                bad = f"orbital {j + 1} is numbered {number}"
+            elif abs(float(_num(occ)) - occs[j]) > 1e-7:
+                bad = f"orbital {j + 1}: occupation {occs[j]} comes back as {float(_num(occ))}"
+            elif abs(float(_num(energy)) - energies[j]) > 1e-6:
+                bad = f"orbital {j + 1}: energy {energies[j]} comes back as {float(_num(energy))}"
+            elif _num(cf).shape != (nprim,) or np.abs(_num(cf) - coeffs[:, j]).max() > 1e-7:
+                bad = f"orbital {j + 1}: the primitive coefficients come back as {_num(cf).tolist()[:3]}..., written {coeffs[:3, j].tolist()}..."
+            if bad:
+                break
+    except Raised as exc:
+        bad = f"evaluation raises {exc.args[0]}"
+    except NotSymbolic as exc:
+        raise AnalysisError(f"WFN MO section writer / reader are outside the evaluation whitelist: {exc}") from exc
+    if bad:
+        ctx.violate(rid, f"WFN orbital sections, {bad}", do, loop, construct=f"wfn MO sections: {bad}"[:180])
+    else:
+        ctx.ok(rid, "WFN orbital sections: number, occupation, energy and seven primitive coefficients of two orbitals come back in their own slots", f"{do.module.relpath}:{loop.lineno}")
